@@ -58,6 +58,24 @@ def _decode(r, tier):
     return p, k, ORIGINS[o], KINDS[kind]
 
 
+def _inactive_rar(prng, prog):
+    """Option combination: the main generator is configured for refinement but its start iteration lies far
+    beyond the horizon, so no refinement ever happens (only kinds for which refinement is supported)."""
+    d = prog["data"]
+    ok = d["kind"] == "ode" or (d["kind"] in ("statio", "nonstatio") and d["dim"] == 2 and d.get("cartesian", True))
+    if not ok or prng.random() >= 0.4:
+        return
+    rp = {"start_iter": 10**6, "update_every": 1}
+    rar = {"params": rp}
+    if d["kind"] in ("ode", "nonstatio"):
+        rar["nt_start"] = d["nt"]
+        rp.update(sample_size_times=3, selected_sample_size_times=1)
+    if d["kind"] in ("statio", "nonstatio"):
+        rar["n_start"] = d["n"]
+        rp.update(sample_size_omega=3, selected_sample_size_omega=1)
+    prog["rar"] = rar
+
+
 def generate(rng, tier, r):
     from sim import core
     from sim.props import C07
@@ -80,6 +98,26 @@ def generate(rng, tier, r):
                        "leaf": "eq:a" if o.endswith("eq") else f"nn:{rng.randrange(8)}", "value": rng.choice(["nan", "inf", "inf", "-inf"])})
         prog["faults"] = fl
         prog["fault"] = {"origin": "sequence", "kind": "+".join(f["value"] for f in fl), "k": k1, "program": r}
+        if prog["eq"] != "sysode" and rng.random() < 0.35:
+            # a NaN-filtering optimizer and a poisoned observation row before the optimizer-side faults: the loss value
+            # is NaN at some iteration while the (filtered) update is finite and the equation parameters still move
+            from sim import trainsim as tm
+
+            d = prog["data"]
+            if d["kind"] == "nonstatio" and not d["cartesian"] and d["bt"] != 1:
+                d["cartesian"] = True
+                prog["param_data"] = None
+            mb = tm.main_batch_size(d)
+            if prog.get("param_data"):
+                prog["param_data"]["b"] = mb
+                prog["param_data"]["n"] = max(prog["param_data"]["n"], mb)
+            prog["obs_data"] = {"key": rng.randrange(2**31), "n": mb * 2 + 1, "b": mb, "params": [], "nan_row": rng.randrange(mb * 2 + 1), "nan_value": "nan"}
+            prog.pop("obs_slice", None)
+            prog["dkeys"] = "both"
+            prog["opt"] = {"kind": "zero_nans_sgd", "lr": rng.choice([1e-2, 2e-2])}
+            prog["faults"] = [f for f in fl if f["at"] >= 1][-1:] or fl[-1:]
+            prog["fault"]["kind"] = "nan-loss-filtered+" + prog["faults"][-1]["value"]
+        _inactive_rar(rng, prog)
         return prog
     p, k, origin, kind = _decode(r, tier)
     prng = core.run_rng(core.verif_seed(), ID, p, stream="program")
@@ -89,6 +127,8 @@ def generate(rng, tier, r):
     prog["segments"] = [{"n": n}]
     prog["verbose"] = False
     prog["fault"] = {"origin": origin, "kind": kind, "k": k, "program": p}
+    if origin != "loss-domain":
+        _inactive_rar(prng, prog)
     if prng.random() < 0.25:
         # option combination: a validation module (that never asks to stop) is present while the fault happens
         prog["validation"] = {"kind": "scripted", "period": prng.choice([1, 2, 3]),
@@ -155,6 +195,10 @@ def execute(program, ctx):
     if program.get("validation"):
         vmod = ts.scripted_validation(program["validation"]["period"], program["validation"]["script"])
         ctx.count("probe.with_validation_module")
+    if program.get("rar"):
+        ctx.count("probe.with_refinement_configured_generator")
+    if program["opt"]["kind"] == "zero_nans_sgd":
+        ctx.count("probe.nan_filtering_optimizer")
     out, stdout = ts.call_solve(P, n, P.params, P.data, P.param_data, P.obs_data, P.init_opt_state, validation=vmod,
                                 driver=program["driver"], verbose=False,
                                 observer=(lambda c: carries.append(c)) if program["driver"] == "M2" else None)
